@@ -183,7 +183,7 @@ FLOORS = {
         "e2e.result.accepted": 15, "e2e.result.rejected": 100, "child.processes.all": 2,
     },
 }
-FLOORS["thorough"] = {k: (v * 8 if v > 3 and not k.startswith(("z.boundary", "stress", "inc.directed", "child")) else v)
+FLOORS["thorough"] = {k: (v * 8 if v > 3 and not k.startswith(("z.boundary", "stress", "inc.directed", "child", "dec.")) else v)
                       for k, v in FLOORS["quick"].items()}
 
 
